@@ -4,6 +4,6 @@ CONSTANTS
   MaxVal = 0
   ExportMode = "thorough"
 INVARIANTS Inv06_Clauses Inv06_Unique Inv06_Base
-PROPERTIES P_C06 P_MutInvalid P_NoopSame
+PROPERTIES P_C06 P_MutInvalid P_NoopSame P_Hist
 CONSTRAINT Emit06
 CHECK_DEADLOCK FALSE
